@@ -113,8 +113,36 @@ def run(ctx, rep):
                 extra += e2
         jobs.append((["--no-gitconfig", "--color-only"] + extra, lines))
 
+    # color-only switched on through gitconfig (main section / a custom feature) instead of the command line, together with
+    # decorations or side-by-side asked for in gitconfig or on the command line: the marker "@gitconfig:<k>" as first
+    # argument selects a scratch HOME whose ~/.gitconfig is GITCONFIGS[k]
+    import os as _os
+    from ..core import BUILD as _BUILD
+    GITCONFIGS = [
+        "[delta]\n    color-only = true\n",
+        "[delta]\n    color-only = true\n    commit-decoration-style = bold yellow box ul\n    file-decoration-style = blue ul\n"
+        "    hunk-header-decoration-style = blue box\n",
+        "[delta]\n    color-only = true\n    side-by-side = true\n    line-numbers = true\n",
+        "[delta]\n    features = co\n[delta \"co\"]\n    color-only = true\n    file-decoration-style = yellow box\n",
+        "[delta]\n    color-only = true\n    features = decorations\n",
+    ]
+    homes = []
+    for k, text in enumerate(GITCONFIGS):
+        h = _os.path.join(_BUILD, f"c02-home-{k}")
+        _os.makedirs(h, exist_ok=True)
+        with open(_os.path.join(h, ".gitconfig"), "w") as f:
+            f.write(text)
+        homes.append(h)
+    for _ in range(ctx.n(40, 1200)):
+        k = rng.randrange(len(GITCONFIGS))
+        extra = rng.choice([[], ["--side-by-side"], ["--file-decoration-style", "red box"], ["--commit-decoration-style", "ul"],
+                            ["--hunk-header-decoration-style", "box ul"], ["--line-numbers"]])
+        jobs.append(([f"@gitconfig:{k}"] + extra, gen_stream(rng)))
+
     def one(j):
         args, lines = j
+        if args and args[0].startswith("@gitconfig:"):
+            return ctx.run_delta(args[1:], ("\n".join(lines) + "\n").encode(), env={"HOME": homes[int(args[0].split(":")[1])]})
         return ctx.run_delta(args, ("\n".join(lines) + "\n").encode())
     for (args, lines), (rc, out, err) in zip(jobs, parallel_map(one, jobs)):
         data = ("\n".join(lines) + "\n").encode()
@@ -136,7 +164,10 @@ def run(ctx, rep):
             rep.violation("plain-diff-plusplus-body-taken-as-header" if ambiguous else "line-count:" + (args[2] if len(args) > 2 else "plain"),
                           f"{len(olines)} output lines for {len(lines)} input lines", case)
             continue
-        if not (set(args) & OVERRIDES_TEXT):
+        # color-only from gitconfig does not remove the side-by-side *feature* (only its panels): the line-number gutter that
+        # feature implies stays, i.e. asking for side-by-side there is asking for a gutter (the line count must still hold)
+        gutter = args[0].startswith("@gitconfig:") and (args[0].endswith(":2") or "--side-by-side" in args)
+        if not (set(args) & OVERRIDES_TEXT) and not gutter:
             for k, (o, l) in enumerate(zip(olines, lines)):
                 want = M.strip_ansi(l.encode()).rstrip(b"\r")
                 got = M.strip_ansi(o)
@@ -151,7 +182,12 @@ def replay(ctx, rep, obj):
     c = obj["case"]
     if "input_b64" in c:
         data = base64.b64decode(c["input_b64"])
-        rc, out, err = ctx.run_delta(c["args"], data)
+        if c["args"] and c["args"][0].startswith("@gitconfig:"):
+            import os
+            from ..core import BUILD
+            rc, out, err = ctx.run_delta(c["args"][1:], data, env={"HOME": os.path.join(BUILD, "c02-home-" + c["args"][0].split(":")[1])})
+        else:
+            rc, out, err = ctx.run_delta(c["args"], data)
         n_in, n_out = data.count(b"\n"), out.count(b"\n")
         print("rc", rc, "lines in/out", n_in, n_out)
         if n_in != n_out:
